@@ -4,7 +4,7 @@
    at the sorted position, the upward loop restores the cached maxima, and the
    fix-up keeps all of that. *)
 Require Import Base.Prelude.
-Require Import C05.Tree C05.ProofsTreeBase C05.ProofsTreeRot C05.ProofsTreeInv C05.ProofsTreeFix.
+Require Import C05.Sweep C05.Tree C05.ProofsTreeBase C05.ProofsTreeRot C05.ProofsTreeInv C05.ProofsTreeFix.
 Require Import Permutation Sorted.
 
 Lemma SSorted_app_iff {T} (R : T -> T -> Prop) (l1 l2 : list T) :
@@ -67,7 +67,7 @@ Section Ins.
     RepC h c p root -> Rep h p (cpar c) s ->
     KSorted h (ids (plug c s)) ->
     (forall j, In j (ids (plug c s)) -> klt k (hkey h j) = true \/ klt (hkey h j) k = true) ->
-    lo_ok h k (cbefore c) -> hi_ok h k (cafter c) -> dir_ok h k c ->
+    lo_ok h k (cbefore c) -> hi_ok h k (cafter c) -> (p = NIL -> dir_ok h k c) ->
     descend klt fuel h k (cpar c) p = Some cur ->
     exists c', plug c' L = plug c s /\ RepC h c' NIL root /\ cur = cpar c' /\
                lo_ok h k (cbefore c') /\ hi_ok h k (cafter c') /\ dir_ok h k c'.
@@ -96,7 +96,7 @@ Section Ins.
           -- simpl. intros j [<-|Hj]; [exact Ek|]. apply in_app_or in Hj. destruct Hj as [Hj|Hj].
              ++ eapply klt_trans; [exact Ek|apply Hir; exact Hj].
              ++ apply Hhi; exact Hj.
-          -- exact Ek.
+          -- intros _. exact Ek.
         * (* right *)
           assert (Eik : klt (hkey h i) k = true).
           { destruct (HD i) as [E|E]; [|congruence|exact E].
@@ -112,6 +112,465 @@ Section Ins.
              apply in_app_or in Hj. destruct Hj as [Hj|[<-|[]]]; [|exact Eik].
              eapply klt_trans; [apply Hli; [exact Hj|now left]|exact Eik].
           -- exact Hhi.
-          -- exact Ek.
+          -- intros _. exact Ek.
+  Qed.
+
+  (* ---- attaching the new row ---- *)
+  Definition attach (h : heap) (id cur : Z) (k : K) (v : N) : heap :=
+    let h := hset h id (mkT k v smallest true NIL NIL NIL) in
+    let h := set_parent h id cur in
+    let h := if klt k (hkey h cur) then set_left h cur id else set_right h cur id in
+    set_max h id (hmin h id).
+
+  Lemma t_insert_unfold fuel (t : @tree K G N) id k v :
+    t_insert klt ggt nmin smallest fuel t id k v =
+    match descend klt fuel (th t) k (troot t) (ins_next klt (th t) k (troot t)) with
+    | None => None
+    | Some cur =>
+      match ins_up ggt fuel (attach (th t) id cur k v) id with
+      | None => None
+      | Some h => match ifix ggt nmin fuel h (troot t) id with
+                  | None => None
+                  | Some (h, root) => Some (mkTree h root)
+                  end
+      end
+    end.
+  Proof. reflexivity. Qed.
+
+  Lemma attach_facts (h : heap) id cur k v :
+    cur <> id ->
+    let h' := attach h id cur k v in
+    (forall j, j <> id -> j <> cur ->
+       hkey h' j = hkey h j /\ hval h' j = hval h j /\ hmax h' j = hmax h j /\ hred h' j = hred h j /\
+       hleft h' j = hleft h j /\ hright h' j = hright h j /\ hparent h' j = hparent h j) /\
+    (hkey h' id = k /\ hval h' id = v /\ hmax h' id = nmin v /\ hred h' id = true /\
+     hleft h' id = NIL /\ hright h' id = NIL /\ hparent h' id = cur) /\
+    (hkey h' cur = hkey h cur /\ hval h' cur = hval h cur /\ hmax h' cur = hmax h cur /\
+     hred h' cur = hred h cur /\ hparent h' cur = hparent h cur /\
+     (if klt k (hkey h cur) then hleft h' cur = id /\ hright h' cur = hright h cur
+      else hright h' cur = id /\ hleft h' cur = hleft h cur)).
+  Proof.
+    intros Hne h'. subst h'. unfold attach.
+    assert (Ek : hkey (set_parent (hset h id (mkT k v smallest true NIL NIL NIL)) id cur) cur = hkey h cur).
+    { hs. reflexivity. }
+    rewrite Ek. unfold Tree.hmin.
+    split; [|split].
+    - intros j J1 J2. destruct (klt k (hkey h cur)); repeat split; hs; reflexivity.
+    - destruct (klt k (hkey h cur)); repeat split; hs; reflexivity.
+    - destruct (klt k (hkey h cur)); repeat split; hs; reflexivity.
+  Qed.
+
+  (* ---- the upward loop restoring the cached maxima ---- *)
+  Lemma MaxV_members hm m l l' : (forall j, In j l <-> In j l') -> MaxV hm m l -> MaxV hm m l'.
+  Proof.
+    intros E [U (w & Hw & Aw)]. split.
+    - intros j Hj. apply U. apply E. exact Hj.
+    - exists w. split; [apply E; exact Hw|exact Aw].
+  Qed.
+
+  Lemma MaxV_up hm mn mi ln L L' :
+    MaxV hm mn ln -> MaxV hm mi L -> (forall j, In j L' <-> In j ln \/ In j L) ->
+    MaxV hm (if ggt mn mi then mn else mi) L'.
+  Proof.
+    intros [Un (wn & Hwn & Awn)] [Ui (wi & Hwi & Awi)] E.
+    assert (Hn : gle ggt mn (if ggt mn mi then mn else mi) /\ gle ggt mi (if ggt mn mi then mn else mi)).
+    { destruct (ggt mn mi) eqn:Eg; split.
+      - apply (gle_refl ggt ggt_asym).
+      - apply ggt_asym. exact Eg.
+      - exact Eg.
+      - apply (gle_refl ggt ggt_asym). }
+    destruct Hn as [Hn Hi]. split.
+    - intros j Hj. apply E in Hj. destruct Hj as [Hj|Hj].
+      + eapply gle_trans; [apply Un; exact Hj|exact Hn].
+      + eapply gle_trans; [apply Ui; exact Hj|exact Hi].
+    - destruct (ggt mn mi).
+      + exists wn. split; [apply E; now left|exact Awn].
+      + exists wi. split; [apply E; now right|exact Awi].
+  Qed.
+
+  Lemma MaxOKC_add h c id : forall l l',
+    (forall j, In j l' <-> j = id \/ In j l) ->
+    (exists j0, In j0 l /\ gle ggt (hmin h id) (hmin h j0)) ->
+    MaxOKC h c l -> MaxOKC h c l'.
+  Proof.
+    induction c as [|c IH i r|c IH l0 i]; simpl; intros l l' Hm (j0 & Hj0 & Hle) H; [exact I| |].
+    - destruct H as (A & (U & (w & Hw & Aw)) & C). split; [exact A|split].
+      + split.
+        * intros j Hj. apply in_app_or in Hj. destruct Hj as [Hj|Hj].
+          -- apply Hm in Hj. destruct Hj as [->|Hj].
+             ++ eapply gle_trans; [exact Hle|apply U; apply in_or_app; now left].
+             ++ apply U. apply in_or_app; now left.
+          -- apply U. apply in_or_app; now right.
+        * exists w. split; [|exact Aw]. apply in_app_or in Hw.
+          destruct Hw as [Hw|Hw]; apply in_or_app; [left; apply Hm; now right|now right].
+      + eapply IH; [| |exact C].
+        * intros j. rewrite !in_app_iff, Hm. tauto.
+        * exists j0. split; [apply in_or_app; now left|exact Hle].
+    - destruct H as (A & (U & (w & Hw & Aw)) & C). split; [exact A|split].
+      + split.
+        * intros j Hj. apply in_app_or in Hj. destruct Hj as [Hj|[Hj|Hj]].
+          -- apply U. apply in_or_app; now left.
+          -- apply U. apply in_or_app; right; now left.
+          -- apply Hm in Hj. destruct Hj as [->|Hj].
+             ++ eapply gle_trans; [exact Hle|apply U; apply in_or_app; right; now right].
+             ++ apply U. apply in_or_app; right; now right.
+        * exists w. split; [|exact Aw]. apply in_app_or in Hw.
+          destruct Hw as [Hw|[Hw|Hw]]; apply in_or_app; [now left|right; now left|right; right; apply Hm; now right].
+      + eapply IH; [| |exact C].
+        * intros j. rewrite !in_app_iff. simpl. rewrite Hm. tauto.
+        * exists j0. split; [apply in_or_app; right; now right|exact Hle].
+  Qed.
+
+  Definition same_but_max (h h' : heap) : Prop :=
+    forall j, same_ptrs h h' j /\ hkey h' j = hkey h j /\ hval h' j = hval h j /\ hred h' j = hred h j.
+
+  Lemma sbm_refl h : same_but_max h h.
+  Proof. intros j. unfold same_ptrs. repeat split; reflexivity. Qed.
+  Lemma sbm_trans h1 h2 h3 : same_but_max h1 h2 -> same_but_max h2 h3 -> same_but_max h1 h3.
+  Proof.
+    intros A B j. destruct (A j) as ((A1 & A2 & A3) & A4 & A5 & A6), (B j) as ((B1 & B2 & B3) & B4 & B5 & B6).
+    unfold same_ptrs. repeat split; congruence.
+  Qed.
+  Lemma sbm_set_max h i m : same_but_max h (set_max h i m).
+  Proof. intros j. unfold same_ptrs. repeat split; now autorewrite with heap. Qed.
+
+  Lemma ins_up_ok (id root : Z) : forall fuel (h : heap) c s lo next h',
+    RepC h c next root -> Rep h next (cpar c) s -> s <> L ->
+    NoDup (ids (plug c s)) ->
+    MaxOK h s -> MaxOKC h c lo ->
+    (forall j, In j (ids s) <-> j = id \/ In j lo) ->
+    ins_up ggt fuel h next = Some h' ->
+    MaxOK h' (plug c s) /\ same_but_max h h' /\ (forall j, ~ In j (cids c) -> hmax h' j = hmax h j).
+  Proof.
+    induction fuel as [|f IH]; intros h c s lo next h' HC HR Hs HN HM HMC Hmem H.
+    - destruct s as [|a i b]; [congruence|]. simpl in HR. destruct HR as (-> & Hi & Hp & _).
+      simpl in H. rewrite Hp in H. destruct c as [|c1 j r|c1 l0 j]; simpl in H, HC.
+      + injection H as <-. split; [exact HM|]. split; [apply sbm_refl|auto].
+      + destruct HC as (Hj & _). destruct (Z.eqb_spec j NIL); [contradiction|discriminate].
+      + destruct HC as (Hj & _). destruct (Z.eqb_spec j NIL); [contradiction|discriminate].
+    - destruct s as [|a n b] eqn:Es; [congruence|]. rewrite <- Es in *.
+      assert (Hnx : next = n /\ hparent h next = cpar c).
+      { rewrite Es in HR. simpl in HR. destruct HR as (-> & _ & Hp & _). auto. }
+      destruct Hnx as [-> Hp].
+      assert (Mn : MaxV (hmin h) (hmax h n) (ids s)).
+      { rewrite Es in HM |- *. simpl in HM. destruct HM as (_ & _ & M). exact M. }
+      assert (Inn : In n (ids s)). { rewrite Es. simpl. apply in_or_app; right; now left. }
+      simpl in H. rewrite Hp in H. destruct c as [|c1 i r|c1 l0 i]; simpl in H.
+      + injection H as <-. split; [exact HM|]. split; [apply sbm_refl|auto].
+      + (* left child of i *)
+        simpl in HC. destruct HC as (Hi & Hil & Hip & Hr & HC1).
+        destruct (Z.eqb_spec i NIL); [contradiction|].
+        simpl in HMC. destruct HMC as (Mr & Mi & MC1).
+        pose proof HN as HN0. simpl in HN. rewrite ids_plug in HN. simpl in HN.
+        apply NoDup_mid in HN. destruct HN as (NI & NC & DC).
+        apply NoDup_app_iff in NI. destruct NI as (Ns & NI & Dsi). apply NoDup_cons_iff in NI. destruct NI as (Nir & Nr).
+        assert (Hin : i <> n). { intros ->. apply (Dsi _ Inn). now left. }
+        assert (NCi : ~ In i (cids c1)).
+        { intros Hc. apply (DC i); [apply in_or_app; right; now left|]. apply in_or_app. apply cids_in. exact Hc. }
+        set (h1 := if ggt (hmax h n) (hmax h i) then set_max h i (hmax h n) else h) in *.
+        assert (S1 : same_but_max h h1). { unfold h1. destruct (ggt _ _); [apply sbm_set_max|apply sbm_refl]. }
+        assert (X1 : forall j, j <> i -> hmax h1 j = hmax h j).
+        { intros j Hj. unfold h1. destruct (ggt _ _); [|reflexivity]. autorewrite with heap.
+          destruct (Z.eqb_spec i j); [congruence|reflexivity]. }
+        assert (Xi : hmax h1 i = if ggt (hmax h n) (hmax h i) then hmax h n else hmax h i).
+        { unfold h1. destruct (ggt _ _); [|reflexivity]. autorewrite with heap. now rewrite Z.eqb_refl. }
+        assert (Hhm : forall j, hmin h1 j = hmin h j).
+        { intros j. unfold Tree.hmin. destruct (S1 j) as (_ & _ & -> & _). reflexivity. }
+        assert (Ms1 : MaxOK h1 s).
+        { eapply MaxOK_ext; [|exact HM]. intros j Hj. destruct (S1 j) as (_ & _ & E & _). split; [|exact E].
+          apply X1. intros ->. apply (Dsi _ Hj). now left. }
+        assert (Mr1 : MaxOK h1 r).
+        { eapply MaxOK_ext; [|exact Mr]. intros j Hj. destruct (S1 j) as (_ & _ & E & _). split; [|exact E].
+          apply X1. intros ->. contradiction. }
+        assert (Mi1 : MaxV (hmin h1) (hmax h1 i) (ids s ++ i :: ids r)).
+        { eapply MaxV_ext; [intros j _; apply Hhm|]. rewrite Xi. eapply MaxV_up; [exact Mn|exact Mi|].
+          intros j. rewrite !in_app_iff, Hmem. tauto. }
+        assert (HC1' : RepC h1 c1 i root).
+        { eapply RepC_ext; [|exact HC1]. intros j _. destruct (S1 j) as (E & _). exact E. }
+        assert (HR1 : Rep h1 i (cpar c1) (Nd s i r)).
+        { eapply Rep_ext; [intros j _; destruct (S1 j) as (E & _); exact E|].
+          simpl. repeat split; auto. rewrite Hil. exact HR. }
+        rewrite (X1 n) in H by auto.
+        destruct (ggt (hmax h1 i) (hmax h n)) eqn:Eb.
+        * (* break *)
+          injection H as <-. split; [|split; [exact S1|]].
+          -- change (plug (CL c1 i r) s) with (plug c1 (Nd s i r)). apply MaxOK_plug. split.
+             ++ simpl. split; [exact Ms1|split; [exact Mr1|exact Mi1]].
+             ++ destruct Mi as (Ui & (w & Hw & Aw)).
+                assert (Hsame : hmax h1 i = hmax h i).
+                { revert Eb. rewrite Xi. destruct (ggt (hmax h n) (hmax h i)); intros Eb; [|reflexivity].
+                  pose proof (gle_refl ggt ggt_asym (hmax h n)) as Er. unfold gle in Er. congruence. }
+                eapply MaxOKC_ext with (h := h); [intros j; destruct (S1 j) as (_ & _ & E & _); exact E| |].
+                { intros j Hj. apply X1. intros ->. contradiction. }
+                simpl. eapply (MaxOKC_add h c1 id (lo ++ i :: ids r)); [| |exact MC1].
+                ** intros j. rewrite !in_app_iff, Hmem. tauto.
+                ** exists w. split; [exact Hw|].
+                   destruct Mn as (Un & _). eapply gle_trans; [apply Un; apply Hmem; now left|].
+                   eapply gle_trans; [|exact Aw]. rewrite <- Hsame. apply ggt_asym. exact Eb.
+          -- intros j Hj. apply X1. intros ->. apply Hj. now left.
+        * (* continue *)
+          destruct (IH h1 c1 (Nd s i r) (lo ++ i :: ids r) i h' HC1' HR1 ltac:(discriminate) HN0) as (A & B & C); auto.
+          -- simpl. split; [exact Ms1|split; [exact Mr1|exact Mi1]].
+          -- eapply MaxOKC_ext; [intros j; destruct (S1 j) as (_ & _ & E & _); exact E| |exact MC1].
+             intros j Hj. apply X1. intros ->. contradiction.
+          -- intros j. simpl. rewrite !in_app_iff, Hmem. simpl. tauto.
+          -- split; [exact A|]. split; [eapply sbm_trans; eauto|].
+             intros j Hj. rewrite C; [apply X1; intros ->; apply Hj; now left|].
+             intros Hc. apply Hj. simpl. right. apply in_or_app. now right.
+      + (* right child of i *)
+        simpl in HC. destruct HC as (Hi & Hil & Hip & Hr & HC1).
+        destruct (Z.eqb_spec i NIL); [contradiction|].
+        simpl in HMC. destruct HMC as (Mr & Mi & MC1).
+        pose proof HN as HN0. simpl in HN. rewrite ids_plug in HN. simpl in HN.
+        apply NoDup_mid in HN. destruct HN as (NI & NC & DC).
+        apply NoDup_app_iff in NI. destruct NI as (Nl & NI & Dli). apply NoDup_cons_iff in NI. destruct NI as (Nis & Ns).
+        assert (Hin : i <> n). { intros ->. contradiction. }
+        set (h1 := if ggt (hmax h n) (hmax h i) then set_max h i (hmax h n) else h) in *.
+        assert (S1 : same_but_max h h1). { unfold h1. destruct (ggt _ _); [apply sbm_set_max|apply sbm_refl]. }
+        assert (X1 : forall j, j <> i -> hmax h1 j = hmax h j).
+        { intros j Hj. unfold h1. destruct (ggt _ _); [|reflexivity]. autorewrite with heap.
+          destruct (Z.eqb_spec i j); [congruence|reflexivity]. }
+        assert (Xi : hmax h1 i = if ggt (hmax h n) (hmax h i) then hmax h n else hmax h i).
+        { unfold h1. destruct (ggt _ _); [|reflexivity]. autorewrite with heap. now rewrite Z.eqb_refl. }
+        assert (Hhm : forall j, hmin h1 j = hmin h j).
+        { intros j. unfold Tree.hmin. destruct (S1 j) as (_ & _ & -> & _). reflexivity. }
+        assert (Ms1 : MaxOK h1 s).
+        { eapply MaxOK_ext; [|exact HM]. intros j Hj. destruct (S1 j) as (_ & _ & E & _). split; [|exact E].
+          apply X1. intros ->. contradiction. }
+        assert (Mr1 : MaxOK h1 l0).
+        { eapply MaxOK_ext; [|exact Mr]. intros j Hj. destruct (S1 j) as (_ & _ & E & _). split; [|exact E].
+          apply X1. intros ->. apply (Dli _ Hj). now left. }
+        assert (Mi1 : MaxV (hmin h1) (hmax h1 i) (ids l0 ++ i :: ids s)).
+        { eapply MaxV_ext; [intros j _; apply Hhm|]. rewrite Xi. eapply MaxV_up; [exact Mn|exact Mi|].
+          intros j. rewrite !in_app_iff. simpl. rewrite Hmem. tauto. }
+        assert (HC1' : RepC h1 c1 i root).
+        { eapply RepC_ext; [|exact HC1]. intros j _. destruct (S1 j) as (E & _). exact E. }
+        assert (HR1 : Rep h1 i (cpar c1) (Nd l0 i s)).
+        { eapply Rep_ext; [intros j _; destruct (S1 j) as (E & _); exact E|].
+          simpl. repeat split; auto. rewrite Hil. exact HR. }
+        assert (NCi : ~ In i (cids c1)).
+        { intros Hc. apply (DC i); [apply in_or_app; right; now left|]. apply in_or_app. apply cids_in. exact Hc. }
+        rewrite (X1 n) in H by auto.
+        destruct (ggt (hmax h1 i) (hmax h n)) eqn:Eb.
+        * injection H as <-. split; [|split; [exact S1|]].
+          -- change (plug (CR c1 l0 i) s) with (plug c1 (Nd l0 i s)). apply MaxOK_plug. split.
+             ++ simpl. split; [exact Mr1|split; [exact Ms1|exact Mi1]].
+             ++ destruct Mi as (Ui & (w & Hw & Aw)).
+                assert (Hsame : hmax h1 i = hmax h i).
+                { revert Eb. rewrite Xi. destruct (ggt (hmax h n) (hmax h i)); intros Eb; [|reflexivity].
+                  pose proof (gle_refl ggt ggt_asym (hmax h n)) as Er. unfold gle in Er. congruence. }
+                eapply MaxOKC_ext with (h := h); [intros j; destruct (S1 j) as (_ & _ & E & _); exact E| |].
+                { intros j Hj. apply X1. intros ->. contradiction. }
+                simpl. eapply (MaxOKC_add h c1 id (ids l0 ++ i :: lo)); [| |exact MC1].
+                ** intros j. rewrite !in_app_iff. simpl. rewrite Hmem. tauto.
+                ** exists w. split; [exact Hw|].
+                   destruct Mn as (Un & _). eapply gle_trans; [apply Un; apply Hmem; now left|].
+                   eapply gle_trans; [|exact Aw]. rewrite <- Hsame. apply ggt_asym. exact Eb.
+          -- intros j Hj. apply X1. intros ->. apply Hj. now left.
+        * destruct (IH h1 c1 (Nd l0 i s) (ids l0 ++ i :: lo) i h' HC1' HR1 ltac:(discriminate) HN0) as (A & B & C); auto.
+          -- simpl. split; [exact Mr1|split; [exact Ms1|exact Mi1]].
+          -- eapply MaxOKC_ext; [intros j; destruct (S1 j) as (_ & _ & E & _); exact E| |exact MC1].
+             intros j Hj. apply X1. intros ->. contradiction.
+          -- intros j. simpl. rewrite !in_app_iff. simpl. rewrite Hmem. tauto.
+          -- split; [exact A|]. split; [eapply sbm_trans; eauto|].
+             intros j Hj. rewrite C; [apply X1; intros ->; apply Hj; now left|].
+             intros Hc. apply Hj. simpl. right. apply in_or_app. now right.
+  Qed.
+
+  Lemma MaxOKC_ext2 (h h' : heap) : forall c l,
+    (forall j, In j (cids c) \/ In j l -> hval h' j = hval h j) ->
+    (forall j, In j (cids c) -> hmax h' j = hmax h j) -> MaxOKC h c l -> MaxOKC h' c l.
+  Proof.
+    induction c as [|c IH i r|c IH l0 i]; simpl; intros l Ev Em H; [exact I| |].
+    - destruct H as (Hr & Hm & HC). split; [|split].
+      + eapply MaxOK_ext; [|exact Hr]. intros j Hj. split; [apply Em|apply Ev; left]; right; apply in_or_app; now left.
+      + rewrite Em by now left. eapply MaxV_ext; [|exact Hm]. intros j Hj. unfold Tree.hmin. rewrite Ev; [reflexivity|].
+        apply in_app_or in Hj. destruct Hj as [Hj|[<-|Hj]]; [now right|left; now left|left; right; apply in_or_app; now left].
+      + apply IH; auto.
+        * intros j [Hj|Hj]; apply Ev.
+          -- left. right. apply in_or_app. now right.
+          -- apply in_app_or in Hj. destruct Hj as [Hj|[<-|Hj]]; [now right|left; now left|left; right; apply in_or_app; now left].
+        * intros j Hj. apply Em. right. apply in_or_app. now right.
+    - destruct H as (Hr & Hm & HC). split; [|split].
+      + eapply MaxOK_ext; [|exact Hr]. intros j Hj. split; [apply Em|apply Ev; left]; right; apply in_or_app; now left.
+      + rewrite Em by now left. eapply MaxV_ext; [|exact Hm]. intros j Hj. unfold Tree.hmin. rewrite Ev; [reflexivity|].
+        apply in_app_or in Hj. destruct Hj as [Hj|[<-|Hj]]; [left; right; apply in_or_app; now left|left; now left|now right].
+      + apply IH; auto.
+        * intros j [Hj|Hj]; apply Ev.
+          -- left. right. apply in_or_app. now right.
+          -- apply in_app_or in Hj. destruct Hj as [Hj|[<-|Hj]]; [left; right; apply in_or_app; now left|left; now left|now right].
+        * intros j Hj. apply Em. right. apply in_or_app. now right.
+  Qed.
+
+  Lemma NoDup_insert {T} (x : T) l1 l2 : NoDup (l1 ++ l2) -> ~ In x (l1 ++ l2) -> NoDup (l1 ++ x :: l2).
+  Proof.
+    intros H Hx. apply NoDup_app_iff in H. destruct H as (A & B & C). apply NoDup_app_iff.
+    split; [exact A|]. split.
+    - constructor; [|exact B]. intros Hc. apply Hx. apply in_or_app. now right.
+    - intros z Hz [<-|Hz2]; [apply Hx; apply in_or_app; now left|exact (C z Hz Hz2)].
+  Qed.
+
+  Theorem t_insert_ok fuel (t : @tree K G N) id k v t' l :
+    Good (th t) (troot t) l -> KSorted (th t) l -> l <> [] ->
+    hred (th t) NIL = false ->
+    id <> NIL -> ~ In id l ->
+    (forall j, In j l -> klt k (hkey (th t) j) = true \/ klt (hkey (th t) j) k = true) ->
+    gle ggt smallest (nmin v) ->
+    t_insert klt ggt nmin smallest fuel t id k v = Some t' ->
+    exists l1 l2, l = l1 ++ l2 /\
+      Good (th t') (troot t') (l1 ++ id :: l2) /\ KSorted (th t') (l1 ++ id :: l2) /\
+      hkey (th t') id = k /\ hval (th t') id = v /\
+      (forall j, j <> id -> hkey (th t') j = hkey (th t) j /\ hval (th t') j = hval (th t) j) /\
+      hred (th t') NIL = false /\ hred (th t') (troot t') = false.
+  Proof.
+    destruct t as [h root]. simpl. intros (s & (HR & HN & HM & HNil & HS) & <-) HK Hne HB Hid Hfresh HD Hv H.
+    rewrite t_insert_unfold in H. simpl in H.
+    destruct (descend klt fuel h k root (ins_next klt h k root)) as [cur|] eqn:Hd; [|discriminate].
+    (* the descent, seen from the root *)
+    assert (Hrn : root <> NIL).
+    { intros ->. apply Hne. now rewrite (Rep_root_L _ _ _ _ HR eq_refl). }
+    assert (Hd' : descend klt (S fuel) h k (cpar Top) root = Some cur).
+    { simpl. destruct (Z.eqb_spec root NIL); [contradiction|exact Hd]. }
+    destruct (descend_ok h k root (S fuel) Top root s cur eq_refl HR HK HD
+                (fun j (H : In j []) => match H with end) (fun j (H : In j []) => match H with end)
+                (fun E => False_ind _ (Hrn E)) Hd') as (c & Ec & HC & -> & Hlo & Hhi & Hdir).
+    simpl in Ec. subst s.
+    assert (HcT : c <> Top) by (intros ->; exact Hdir).
+    destruct (cpar_cases _ _ _ _ HC) as [E|[Hcur Hcurn]]; [destruct c; simpl in E, HC; try congruence; tauto|].
+    pose proof (RepC_NIL_notin _ _ _ _ HC) as NNc.
+    rewrite ids_plug in *. simpl in *.
+    set (l1 := cbefore c) in *. set (l2 := cafter c) in *.
+    assert (Hcurl : In (cpar c) (l1 ++ l2)). { apply in_or_app. apply cids_in. exact Hcur. }
+    assert (Hcid : cpar c <> id). { intros E. apply Hfresh. rewrite <- E. exact Hcurl. }
+    assert (Hcids : forall j, In j (cids c) -> j <> id).
+    { intros j Hj ->. apply Hfresh. apply in_or_app. apply cids_in. exact Hj. }
+    destruct (attach_facts h id (cpar c) k v Hcid) as (F1 & F2 & F3).
+    set (h4 := attach h id (cpar c) k v) in *.
+    destruct F2 as (Fk & Fv & Fm & Fr & Fl & Frr & Fp).
+    destruct F3 as (Ck & Cv & Cm & Cr & Cp & Cd).
+    assert (NCc : NoDup (cids c)).
+    { eapply Permutation_NoDup; [symmetry; apply cids_perm|exact HN]. }
+    (* the tree with the new leaf *)
+    assert (HC4 : RepC h4 c id root).
+    { eapply RepC_swap; [exact HC| |].
+      - intros j Hj Hne'. destruct (F1 j (Hcids j Hj) Hne') as (_ & _ & _ & _ & A & B & C). split; [|split]; assumption.
+      - destruct c as [|c1 i r|c1 l0 i]; simpl in *; [contradiction| |].
+        + rewrite Hdir in Cd. destruct Cd as [Cd1 Cd2]. apply NoDup_cons_iff in NCc. destruct NCc as [NCi _].
+          repeat split; auto; intros Hc; apply NCi; apply in_or_app; [now left|now right].
+        + rewrite Hdir in Cd. destruct Cd as [Cd1 Cd2]. apply NoDup_cons_iff in NCc. destruct NCc as [NCi _].
+          repeat split; auto; intros Hc; apply NCi; apply in_or_app; [now left|now right]. }
+    assert (HR4 : Rep h4 id (cpar c) (Nd L id L)).
+    { simpl. repeat split; auto. }
+    assert (HN4 : NoDup (ids (plug c (Nd L id L)))).
+    { rewrite ids_plug. simpl. apply NoDup_insert; assumption. }
+    apply MaxOK_plug in HM. destruct HM as (_ & HMC). simpl in HMC.
+    assert (HMC4 : MaxOKC h4 c []).
+    { eapply MaxOKC_ext2; [| |exact HMC].
+      - intros j [Hj|[]]. destruct (Z.eq_dec j (cpar c)) as [->|Hn]; [exact Cv|].
+        destruct (F1 j (Hcids j Hj) Hn) as (_ & A & _). exact A.
+      - intros j Hj. destruct (Z.eq_dec j (cpar c)) as [->|Hn]; [exact Cm|].
+        destruct (F1 j (Hcids j Hj) Hn) as (_ & _ & A & _). exact A. }
+    assert (HM4 : MaxOK h4 (Nd L id L)).
+    { simpl. repeat split; trivial.
+      - intros j [<-|[]]. unfold Tree.hmin. rewrite Fv, Fm. apply (gle_refl ggt ggt_asym).
+      - exists id. split; [now left|]. unfold Tree.hmin. rewrite Fv, Fm. apply (gle_refl ggt ggt_asym). }
+    destruct (ins_up ggt fuel h4 id) as [h5|] eqn:Hu; [|discriminate].
+    assert (Hmem4 : forall j, In j (ids (Nd L id L)) <-> j = id \/ In j []).
+    { intros j. simpl. split; intros [E|[]]; left; congruence. }
+    destruct (ins_up_ok id root fuel h4 c (Nd L id L) [] id h5 HC4 HR4 ltac:(discriminate) HN4 HM4 HMC4 Hmem4 Hu)
+      as (M5 & S5 & X5).
+    assert (Hkv5 : forall j, hkey h5 j = hkey h4 j /\ hval h5 j = hval h4 j /\ hred h5 j = hred h4 j).
+    { intros j. destruct (S5 j) as (_ & A & B & C). auto. }
+    assert (Hold : forall j, j <> id -> hkey h4 j = hkey h j /\ hval h4 j = hval h j /\ hred h4 j = hred h j).
+    { intros j Hj. destruct (Z.eq_dec j (cpar c)) as [->|Hn]; [auto|].
+      destruct (F1 j Hj Hn) as (A & B & _ & D & _). auto. }
+    assert (HNn : NIL <> id) by congruence.
+    assert (HNc : NIL <> cpar c) by congruence.
+    assert (G5 : Good h5 root (l1 ++ id :: l2)).
+    { exists (plug c (Nd L id L)). split; [|rewrite ids_plug; reflexivity].
+      unfold ProofsTreeInv.TInv. split; [|split; [|split; [|split]]].
+      - eapply Rep_ext; [intros j _; destruct (S5 j) as (E & _); exact E|].
+        apply Rep_plug. exists id. split; assumption.
+      - exact HN4.
+      - exact M5.
+      - rewrite X5 by exact NNc. destruct (F1 NIL HNn HNc) as (_ & _ & A & _). rewrite A. exact HNil.
+      - intros j Hj. rewrite ids_plug in Hj. simpl in Hj. unfold Tree.hmin.
+        destruct (Hkv5 j) as (_ & -> & _). destruct (Z.eq_dec j id) as [->|Hn].
+        + rewrite Fv. exact Hv.
+        + destruct (Hold j Hn) as (_ & -> & _). apply HS. apply in_app_or in Hj.
+          destruct Hj as [Hj|[Hj|Hj]]; [apply in_or_app; now left|congruence|apply in_or_app; now right]. }
+    assert (K5 : KSorted h5 (l1 ++ id :: l2)).
+    { unfold KSorted in *. apply SSorted_app_iff in HK. destruct HK as (K1 & K2 & K12).
+      assert (Hk1 : forall j, In j (l1 ++ l2) -> hkey h5 j = hkey h j).
+      { intros j Hj. destruct (Hkv5 j) as (-> & _). apply Hold. intros ->. contradiction. }
+      assert (Hkid : hkey h5 id = k). { destruct (Hkv5 id) as (-> & _). exact Fk. }
+      apply SSorted_app_iff. split; [|split].
+      - eapply (KSorted_ext h); [|exact K1]. intros j Hj. apply Hk1. apply in_or_app; now left.
+      - constructor.
+        + eapply (KSorted_ext h); [|exact K2]. intros j Hj. apply Hk1. apply in_or_app; now right.
+        + apply Forall_forall. intros j Hj. rewrite Hkid, Hk1 by (apply in_or_app; now right). apply Hhi. exact Hj.
+      - intros a b Ha [<-|Hb].
+        + rewrite Hkid, Hk1 by (apply in_or_app; now left). apply Hlo. exact Ha.
+        + rewrite !Hk1 by (apply in_or_app; auto). apply K12; assumption. }
+    assert (B5 : hred h5 NIL = false).
+    { destruct (Hkv5 NIL) as (_ & _ & ->). destruct (Hold NIL HNn) as (_ & _ & ->). exact HB. }
+    destruct (ifix ggt nmin fuel h5 root id) as [[h6 root6]|] eqn:Hf; [|discriminate]. injection H as <-. simpl.
+    destruct (ifix_ok ggt nmin smallest ggt_asym gle_trans fuel h5 root (l1 ++ id :: l2) id h6 root6) as (G6 & KV6 & B6 & R6); auto.
+    { split; [exact G5|split; [apply in_or_app; right; now left|exact B5]]. }
+    exists l1, l2. split; [reflexivity|]. split; [exact G6|]. split.
+    { eapply KSorted_ext; [|exact K5]. intros j _. apply KV6. }
+    split. { destruct (KV6 id) as (-> & _). destruct (Hkv5 id) as (-> & _). exact Fk. }
+    split. { destruct (KV6 id) as (_ & ->). destruct (Hkv5 id) as (_ & -> & _). exact Fv. }
+    split; [|split; assumption].
+    intros j Hj. destruct (KV6 j) as (-> & ->). destruct (Hkv5 j) as (-> & -> & _).
+    destruct (Hold j Hj) as (A & B & _). auto.
+  Qed.
+
+  (* the abstraction: (key, payload) along the in-order id sequence *)
+  Definition tabs (h : heap) (l : list Z) : list (K * N) := map (fun i => (hkey h i, hval h i)) l.
+
+  Lemma tabs_ext h h' l : (forall j, In j l -> hkey h' j = hkey h j /\ hval h' j = hval h j) -> tabs h' l = tabs h l.
+  Proof. intros E. apply map_ext_in. intros j Hj. destruct (E j Hj) as [-> ->]. reflexivity. Qed.
+
+  Lemma has_key_tabs h k l :
+    has_key klt k (tabs h l) = false ->
+    forall j, In j l -> klt k (hkey h j) = true \/ klt (hkey h j) k = true.
+  Proof.
+    unfold has_key, tabs. intros H j Hj.
+    destruct (klt k (hkey h j)) eqn:E1; [now left|]. destruct (klt (hkey h j) k) eqn:E2; [now right|].
+    exfalso. assert (Hex : existsb (fun kn : K * N => keq klt k (fst kn)) (map (fun i => (hkey h i, hval h i)) l) = true).
+    { apply existsb_exists. exists (hkey h j, hval h j). split; [apply in_map_iff; exists j; auto|].
+      simpl. unfold keq. now rewrite E1, E2. }
+    congruence.
+  Qed.
+
+  Theorem t_insert_refines fuel (t : @tree K G N) id k v t' l :
+    Good (th t) (troot t) l -> KSorted (th t) l -> l <> [] ->
+    hred (th t) NIL = false ->
+    id <> NIL -> ~ In id l ->
+    has_key klt k (tabs (th t) l) = false ->
+    gle ggt smallest (nmin v) ->
+    t_insert klt ggt nmin smallest fuel t id k v = Some t' ->
+    exists l1 l2, l = l1 ++ l2 /\
+      Good (th t') (troot t') (l1 ++ id :: l2) /\ KSorted (th t') (l1 ++ id :: l2) /\
+      tabs (th t') (l1 ++ id :: l2) = tabs (th t) l1 ++ (k, v) :: tabs (th t) l2 /\
+      st_insert klt k v (tabs (th t) l) = inr ((k, v) :: tabs (th t) l) /\
+      Permutation (tabs (th t') (l1 ++ id :: l2)) ((k, v) :: tabs (th t) l) /\
+      hred (th t') NIL = false /\ hred (th t') (troot t') = false.
+  Proof.
+    intros HG HK Hne HB Hid Hfresh Hdup Hv H.
+    destruct (t_insert_ok fuel t id k v t' l HG HK Hne HB Hid Hfresh (has_key_tabs _ _ _ Hdup) Hv H)
+      as (l1 & l2 & -> & G' & K' & Ek & Ev & Eo & B1 & B2).
+    exists l1, l2. split; [reflexivity|]. split; [exact G'|]. split; [exact K'|].
+    assert (Et : tabs (th t') (l1 ++ id :: l2) = tabs (th t) l1 ++ (k, v) :: tabs (th t) l2).
+    { unfold tabs. rewrite map_app. simpl. rewrite Ek, Ev. f_equal; [|f_equal].
+      - apply map_ext_in. intros j Hj. destruct (Eo j) as [-> ->]; [|reflexivity].
+        intros ->. apply Hfresh. apply in_or_app. now left.
+      - apply map_ext_in. intros j Hj. destruct (Eo j) as [-> ->]; [|reflexivity].
+        intros ->. apply Hfresh. apply in_or_app. now right. }
+    split; [exact Et|]. split.
+    { unfold st_insert. now rewrite Hdup. }
+    split; [|split; assumption].
+    rewrite Et. unfold tabs. rewrite map_app. symmetry. apply Permutation_middle.
   Qed.
 End Ins.
